@@ -102,9 +102,8 @@ def random_plan(rng: random.Random, job: str, variant: int, n: int, with_console
             cmds.append(c)
             eng.exec(c)
             continue
-        viewer = eng.get_current_viewer()
-        valid = [v.name for v in viewer("validity") if v.valid]
-        keydowns = [k.name for k in viewer("keydown") if k.running]
+        valid = [v.name for v in safe_view(eng, "validity", []) if v.valid]
+        keydowns = [k.name for k in safe_view(eng, "keydown", []) if k.running]
         r = rng.random()
         if rng.random() < 0.08 and valid:
             # patterns whose meaning depends on what survives between commands: a delayed use, then debug lines
@@ -152,6 +151,42 @@ def random_plan(rng: random.Random, job: str, variant: int, n: int, with_console
         cmds.append(c)
         eng.exec(c)
     return cmds[:n]
+
+
+def safe_view(eng, name: str, default):
+    """a view value for plan generation; a raising view must not crash the generator (the checks evaluate the views
+    themselves and report a raising view as a failing input)"""
+    try:
+        return eng.get_current_viewer()(name)
+    except Exception:
+        return default
+
+
+def rotation_plan(rng: random.Random, job: str, variant: int, rounds: int) -> list:
+    """a busy rotation: every round casts a random subset of the skills the validity view lists as usable
+    (and sometimes stops a key-down or re-uses a skill at once), then lets some time pass -- reaches states that
+    short random plans rarely reach (gauges filled, stacks built, many periodics running at once)"""
+    eng = make_engine(job, variant)
+    cmds = []
+    all_names = [v.name for v in safe_view(eng, "validity", [])]
+
+    def do(c):
+        cmds.append(c)
+        eng.exec(c)
+    for _ in range(rounds):
+        valid = [v.name for v in safe_view(eng, "validity", []) if v.valid] or list(all_names)
+        rng.shuffle(valid)
+        for name in valid[: max(1, int(len(valid) * rng.choice([0.3, 0.6, 1.0])))]:
+            do(op(rng.choice(["CAST", "CAST", "USE"]), name))
+            if rng.random() < 0.12:
+                do(op("USE", name))                      # immediately again
+            if rng.random() < 0.15:
+                do(op("ELAPSE", time=rng.choice([30.0, 100.0, 250.0, 0.5, 780.0])))
+        for k in [k.name for k in safe_view(eng, "keydown", []) if k.running]:
+            if rng.random() < 0.5:
+                do(op("KEYDOWNSTOP", k))
+        do(op("ELAPSE", time=rng.choice([500.0, 1000.0, 2000.0, 3000.0, 5000.0, 8000.0, 333.25, 15000.0])))
+    return cmds
 
 
 # ------------------------------------------------------------------ canonical forms
